@@ -1,4 +1,5 @@
 import BtcwVerif.Model.Recovery
+import BtcwVerif.Lemmas.RecoveryComplete
 -- engine: walletchain-recovery
 import Driver.Proto
 open Proto Recovery
@@ -12,6 +13,8 @@ structure St where
   done    : Nat := 0                                -- number of blocks already scanned by the wallet
   rs      : Option State := none                    -- wallet-side recovery/persistent state
   batch   : Nat := 2000
+  mem     : List Tx := []                           -- unmined transactions handed to the wallet (rmempool), for `m<id>`
+  hyp     : Bool := true    -- the hypotheses of C16_complete / C16_complete_resumed held for every scan so far
   tainted : Bool := false   -- an injected FilterBlocks failure fired: in-process retry is outside the model (finding)
 
 def noInvalid : BranchId → List Nat := fun _ => []
@@ -57,7 +60,7 @@ def lexKey (a b : Key) : Bool :=
 def showState (s : St) (st : State) : String :=
   let nexts := s.scopes.map fun sc => s!"{sc}:{st.nextOf (sc, false)}/{st.nextOf (sc, true)}"
   let used := (st.used.mergeSort lexKey).map fun k => s!"{k.scope}.{if k.internal then 1 else 0}.{k.index}"
-  let utxo := ((st.credits.filter (fun c => !c.spent)).mergeSort (fun a b => a.op.1 < b.op.1 || (a.op.1 == b.op.1 && a.op.2 ≤ b.op.2))).map
+  let utxo := ((spendable st).mergeSort (fun a b => a.op.1 < b.op.1 || (a.op.1 == b.op.1 && a.op.2 ≤ b.op.2))).map
     fun c => s!"{c.op.1}.{c.op.2}:{c.amount}"
   let txs := (st.txs.mergeSort (fun a b => a.1 ≤ b.1)).map fun p => s!"{p.1}@{p.2}"
   s!"next={joinWith "," nexts} used={joinWith "," used} bal={balance st} utxo={joinWith "," utxo} txs={joinWith "," txs}"
@@ -97,12 +100,39 @@ def step (s : St) (line : String) : St × String :=
   | ["bst"] => (s, showBranch s.br)
   | "rinit" :: rest =>
     match (kv rest "scopes").bind natList?, natOf rest "batch" with
-    | some scopes, some batch => ({ s with scopes := scopes, blocks := [], done := 0, rs := none, batch := batch, tainted := false }, "ok")
+    | some scopes, some batch => ({ s with scopes := scopes, blocks := [], done := 0, rs := none, batch := batch, tainted := false, hyp := true, mem := [] }, "ok")
     | _, _ => (s, "bad-op")
   | "rblk" :: rest =>
-    match (kv rest "txs").map (fun x => (splitOn1 x ";").mapM parseTx) with
+    -- `m<id>` = the unmined transaction <id> handed to the wallet earlier (rmempool) is mined in this block
+    let parse1 := fun (x : String) =>
+      if x.startsWith "m" then (x.drop 1).toNat?.bind (fun id => s.mem.find? (fun t => t.id == id)) else parseTx x
+    match (kv rest "txs").map (fun x => (splitOn1 x ";").mapM parse1) with
     | some (some txs) => ({ s with blocks := s.blocks ++ [(s.blocks.length + 1, txs)] }, "ok")
     | _ => (s, "bad-op")
+  | "rlease" :: rest | "rrelease" :: rest =>
+    let knownTx := fun (id : Nat) => (s.blocks.any (fun hb => hb.2.any (fun t => t.id == id))) || s.mem.any (fun t => t.id == id)
+    match s.rs, (kv rest "op").map (fun x => x.splitOn ".") with
+    | some st, some [a, b] =>
+      match a.toNat?, b.toNat? with
+      | some a, some b =>
+        if !knownTx a then (s, "bad-op") else
+        if t.head? == some "rlease" then
+          match leaseOutput st (a, b) with
+          | some st' => ({ s with rs := some st' }, "ok")
+          | none => (s, "err lease")
+        else
+          match releaseOutput st (a, b) with
+          | some st' => ({ s with rs := some st' }, showState s st')
+          | none => (s, "err release")
+      | _, _ => (s, "bad-op")
+    | _, _ => (s, "bad-op")
+  | "rmempool" :: rest =>
+    match s.rs, (kv rest "tx").bind parseTx with
+    | some st, some tx =>
+      if tx.outs.any (fun o => o.key.isSome) then (s, "bad-op") else
+      let st' := addUnmined st tx
+      ({ s with rs := some st', mem := s.mem ++ [tx] }, showState s st')
+    | _, _ => (s, "bad-op")
   | "rrecover" :: rest =>
     match natOf rest "w" with
     | some w =>
@@ -111,7 +141,10 @@ def step (s : St) (line : String) : St × String :=
       let st' := recover noInvalid w s.batch s.scopes s.blocks (fun _ => true)
       let failat := (natOf rest "failat").getD 0
       if failat != 0 && failat ≤ st.calls then ({ s with tainted := true }, "retried-after-failure")
-      else if persistEq s st st' then ({ s with rs := some st, done := s.blocks.length }, showState s st)
+      else if persistEq s st st' then
+        -- the theorem's hypotheses, evaluated on this chain (the Go oracle evaluates its own version: `hyp=` must agree)
+        let hyp := checkWF s.scopes noInvalid s.blocks && checkLA w s.scopes s.blocks
+        ({ s with rs := some st, done := s.blocks.length, hyp := hyp }, showState s st ++ s!" hyp={if hyp then 1 else 0}")
       else (s, "model-cuts-differ")
     | none => (s, "bad-op")
   | "rrestart" :: rest =>
@@ -123,7 +156,9 @@ def step (s : St) (line : String) : St × String :=
       let st := run (fun _ => false)
       let failat := (natOf rest "failat").getD 0
       if failat != 0 && failat ≤ st.calls - st0.calls then ({ s with tainted := true }, "retried-after-failure")
-      else if persistEq s st (run (fun _ => true)) then ({ s with rs := some st, done := s.blocks.length }, showState s st)
+      else if persistEq s st (run (fun _ => true)) then
+        let hyp := s.hyp && checkWF s.scopes noInvalid s.blocks && checkLAFrom w s.scopes s.done s.blocks
+        ({ s with rs := some st, done := s.blocks.length, hyp := hyp }, showState s st ++ s!" hyp={if hyp then 1 else 0}")
       else (s, "model-cuts-differ")
     | _, _ => (s, "bad-op")
   | ["rstate"] =>
